@@ -133,7 +133,17 @@ class Program:
                 with open(path, encoding="utf-8") as f:
                     src = f.read()
                 self.modules[name] = Module(name, path, os.path.relpath(path, self.root), src, is_pkg)
-        # whole-package normalisation (needs every module parsed): optional collaborators nobody injects
+        # whole-package normalisation (needs every module parsed): private base classes / mixins read in place
+        from .normalise import flatten_private_bases
+
+        got = flatten_private_bases({m.name: (m.tree, m.is_pkg) for m in self.modules.values()})
+        if got:
+            for m in self.modules.values():
+                for n in ast.walk(m.tree):
+                    if not hasattr(n, "_file"):
+                        n._file = m.relpath
+            self.__dict__.setdefault("private_bases_read_in_place", []).extend(got)
+        # optional collaborators nobody injects
         from .normalise import eliminate_optional_collaborators
 
         for _round in range(4):  # one candidate per function and pass
